@@ -783,6 +783,8 @@ class H2Connection:
             )
 
         self.state_machine.process_input(ConnectionInputs.SEND_HEADERS)
+        new_stream = stream_id not in self.streams
+        previous_highest_id = self.highest_outbound_stream_id
         if self.config.client_side:
             stream = self._get_or_create_stream(
                 stream_id, AllowedStreamIDs.ODD
@@ -791,9 +793,18 @@ class H2Connection:
             # Servers never open streams by sending HEADERS: the stream must
             # already exist (opened by the client, or promised by us).
             stream = self._get_stream_by_id(stream_id)
-        frames = stream.send_headers(
-            headers, self.encoder, end_stream
-        )
+
+        try:
+            frames = stream.send_headers(
+                headers, self.encoder, end_stream
+            )
+        except ProtocolError:
+            # Nothing was sent, so a stream this call would have opened does
+            # not exist: its ID has not been used.
+            if new_stream:
+                del self.streams[stream_id]
+                self.highest_outbound_stream_id = previous_highest_id
+            raise
 
         if priority_present:
             headers_frame = frames[0]
@@ -985,14 +996,22 @@ class H2Connection:
         if (stream_id % 2) == 0:
             raise ProtocolError("Cannot recursively push streams.")
 
+        previous_highest_id = self.highest_outbound_stream_id
         new_stream = self._begin_new_stream(
             promised_stream_id, AllowedStreamIDs.EVEN
         )
         self.streams[promised_stream_id] = new_stream
 
-        frames = stream.push_stream_in_band(
-            promised_stream_id, request_headers, self.encoder
-        )
+        try:
+            frames = stream.push_stream_in_band(
+                promised_stream_id, request_headers, self.encoder
+            )
+        except ProtocolError:
+            # Nothing was promised: the promised stream does not exist and
+            # its ID has not been used.
+            del self.streams[promised_stream_id]
+            self.highest_outbound_stream_id = previous_highest_id
+            raise
         new_frames = new_stream.locally_pushed()
         self._prepare_for_sending(frames + new_frames)
 
